@@ -56,10 +56,14 @@ def gen_routing(seed, opts=None):
             route = [rng.choice(known)]
             if rng.random() < 0.2:
                 route.append(rng.choice(names))  # only the first tag counts
+            elif rng.random() < 0.1:
+                route.append('')  # ... an empty tag behind it included
         elif r < 0.75 and other_type_routes:
             route = [rng.choice(other_type_routes)]  # registered, but for another interaction type
-        elif r < 0.9:
+        elif r < 0.87:
             route = ['nope-%d' % i]
+        elif r < 0.9:
+            route = ['']  # a routing entry whose only tag is empty: no such route
         elif r < 0.95:
             route = []  # routing entry without tags
         else:
@@ -501,4 +505,19 @@ def oracle_c11_routing(world):
             evs = [e for e in h if e['k'] == 'sub' and e.get('iid') == iid and e['seq'] < mark]
             if evs and not [e for e in evs if e['cb'] in ('on_complete', 'on_error') or (e['cb'] == 'on_next' and e.get('complete'))]:
                 V('subscriber_left_hanging', 'routed %s %d got no terminal signal after close()' % (kind, iid), None, kind=kind, **facts)
+    return out
+
+
+def oracle_c12_routing(world):
+    """C12 with the routing handler and its metadata decoders in the way: decoding terminates on every routing entry (empty
+    tags included) and whatever the reference dispatch table says is served is served."""
+    out = []
+    V = lambda cls, msg, seq=None, **f: out.append(Violation('C12', 'C12.' + cls, msg, seq, **f))
+    if world.stats.get('metadata_guard'):
+        g = next(e for e in world.history if e['k'] == 'guard')
+        V('nontermination', 'decoding the metadata of a routed request did not terminate (%d-byte metadata)' % g.get('input_len', -1),
+          g['seq'], where='CompositeMetadata.parse', framing=world.plan.get('framing', 'tcp'))
+    for v in oracle_c19(world):
+        if v.cls in ('C19.valid_request_failed', 'C19.handler_count'):
+            V('valid_request_not_served', v.msg, v.seq, via=v.cls, routed=True)
     return out
